@@ -17,6 +17,14 @@ CHECKS = {
              "a growing default, module scratch state or a write to self in make_readable is one store in the syntax tree, whatever input would expose it.",
         ref="DESIGN 3/C15",
         note=TB + "; memoisation of any kind is treated as state (the library documents itself as stateless)"),
+    "C17": dict(
+        technique="static effect analysis + control dependence (ast CFG, guard-literal dataflow, reaching definitions): I/O primitives reachable through the resolved call graph must be dominated by the show/save_report tests",
+        category="other",
+        text="Enumerates every I/O primitive reachable from the public API and proves, over all CFG paths, that each executes only under the "
+             "requested flag (conditional I/O summaries are translated through call sites), that constructors/queries reach none, that nothing defined "
+             "in the preview/report region reaches the return, and that report files are the documented constants. Covers every pair, spelling and outcome because the rule is about paths.",
+        ref="DESIGN 3/C17",
+        note=TB + "; the I/O primitive table (sa/effects.py) and the reviewed-import list are complete; 'preview never raises' is not decided"),
 }
 
 NOT_APPLICABLE = {
